@@ -18,18 +18,19 @@ LEVEL = "exploration"
 NEEDS_DEPS = ["numpy"]
 RULE = ("a case is one generated object (recursive universe of builtin scalars/containers/user classes, shared and "
         "cyclic references, payloads sized around 8 KiB / 64 KiB / 1 MiB, 8-24 MiB constant or short-period runs at levels 4-9, optionally holding numpy arrays) x several "
-        "(compress argument, protocol 0..5, target kind path|Path|open file|BytesIO, load-from kind) combinations, "
+        "(compress argument, protocol 0..5, target kind path|Path|open file|BytesIO|open file or BytesIO already holding longer older content (junk, every compressor's magic number, a complete older dump directly after the new dump), load-from kind) combinations, "
         "then - for path targets - the file renamed to every other compression extension and to none and loaded again; "
         "distinct_nontrivial counts distinct (object canonical form, compress, protocol, target, load kind) round "
         "trips of objects with at least one container")
 ASSUMPTIONS = [
+    "reused targets: zero bytes directly after an xz / lzma dump are excluded (stream padding of the container format: the standard library's LZMAFile then requires another stream)",
     "iso (vlib/gen_obj.py) = equal values and a bijection between identities of mutable parts",
     "lz4 is not installed: compress='lz4' must raise ValueError, nothing else is asserted about it",
     "objects are picklable by construction (classes importable from vlib.userclasses)",
 ]
 SHARDS = {"quick": 12, "thorough": 14}
-FLOORS = {"quick": {"huge_run_payloads": 3, "round_trips": 2500, "renamed_loads": 1500, "aliased_objects": 100, "big_payloads": 40},
-          "thorough": {"huge_run_payloads": 60, "round_trips": 50000, "renamed_loads": 30000, "aliased_objects": 2000, "big_payloads": 800}}
+FLOORS = {"quick": {"huge_run_payloads": 3, "round_trips": 2500, "renamed_loads": 1000, "aliased_objects": 100, "big_payloads": 40, "dumps_over_older_longer_content": 500},
+          "thorough": {"huge_run_payloads": 60, "round_trips": 50000, "renamed_loads": 20000, "aliased_objects": 2000, "big_payloads": 800, "dumps_over_older_longer_content": 10000}}
 
 EXTS = ["", ".pkl", ".z", ".gz", ".bz2", ".xz", ".lzma"]
 METHODS = ["zlib", "gzip", "bz2", "lzma", "xz"]
@@ -118,9 +119,13 @@ def run_case(case, ctx):
                                                 (isinstance(compress, tuple) and compress[0] in ("zlib", "gzip") and (compress[1] or 3) <= 3)):
                 compress = rng.choice([0, 1, 3, ("gzip", 1), "zlib"])
             protocol = rng.choice([None, 0, 1, 2, 3, 4, 5])
-            target = rng.choice(["path", "path", "path", "Path", "file", "bytesio"])
+            target = rng.choice(["path", "path", "path", "Path", "file", "bytesio", "reused-file", "reused-bytesio"])
+            if klass in ("huge-run",) or klass.startswith("big"):
+                target = rng.choice(["path", "path", "Path", "file", "bytesio"])
             ext = rng.choice(EXTS)
             load_from = rng.choice(["path", "file", "bytesio"]) if target in ("path", "Path", "file") else "bytesio"
+            if target.startswith("reused"):
+                load_from = "same-object"
             desc = dict(object=can[:300], klass=klass, compress=compress, protocol=protocol, target=target, ext=ext, load_from=load_from)
             path = os.path.join(d, f"f{combo}{ext}")
             ctx.evaluated()
@@ -137,14 +142,55 @@ def run_case(case, ctx):
                     elif target == "file":
                         with open(path, "wb") as f:
                             joblib.dump(obj, f, compress=compress, protocol=protocol)
+                    elif target.startswith("reused"):
+                        # the target already holds longer, older content and is overwritten from its start: what follows the
+                        # new dump is old data - junk, another compressor's magic number, or a complete older dump
+                        probe = io.BytesIO()
+                        joblib.dump(obj, probe, compress=compress, protocol=protocol)
+                        L = len(probe.getvalue())
+                        tail_kind = rng.choice(["zeros", "random", "magic-gzip", "magic-zlib", "magic-bz2", "magic-xz", "magic-lzma", "magic-pickle", "older-dump"])
+                        if tail_kind == "zeros" and sniff(probe.getvalue()) in ("xz", "lzma"):
+                            # zero bytes after an xz / lzma stream are 'stream padding' of the container format: CPython's
+                            # LZMAFile then insists on another stream (EOFError) - the standard library's rule, not joblib's
+                            tail_kind = "random"
+                        if tail_kind == "older-dump":
+                            ob = io.BytesIO()
+                            joblib.dump(["older", 1, 2.5], ob, compress=rng.choice([0, 3, ("gzip", 3), ("bz2", 3), ("xz", 3)]))
+                            tail = ob.getvalue()
+                        else:
+                            tail = {"zeros": b"\0" * 64, "random": rng.randbytes(200), "magic-gzip": b"\x1f\x8b" + rng.randbytes(100), "magic-zlib": b"\x78\x9c" + rng.randbytes(100),
+                                    "magic-bz2": b"BZh9" + rng.randbytes(100), "magic-xz": b"\xfd7zXZ\x00" + rng.randbytes(100), "magic-lzma": b"]\x00\x00\x80\x00" + rng.randbytes(100),
+                                    "magic-pickle": b"\x80\x04N." + rng.randbytes(50)}[tail_kind]
+                        desc["old_content_after_the_dump"] = tail_kind
+                        old = rng.randbytes(L) + tail
+                        if target == "reused-bytesio":
+                            fobj = io.BytesIO(old)
+                        else:
+                            with open(path, "wb") as f0:
+                                f0.write(old)
+                            fobj = open(path, "r+b")
+                        try:
+                            fobj.seek(0)
+                            joblib.dump(obj, fobj, compress=compress, protocol=protocol)
+                            ctx.count("dumps_over_older_longer_content")
+                            if fobj.tell() == L:
+                                ctx.count("old_content_directly_after_the_dump:" + tail_kind.split("-")[0])
+                            fobj.seek(0)
+                            back = joblib.load(fobj)
+                            fobj.seek(0)
+                            raw = fobj.read()[:L]
+                        finally:
+                            fobj.close()
                     else:
                         bio = io.BytesIO()
                         joblib.dump(obj, bio, compress=compress, protocol=protocol)
                         raw = bio.getvalue()
-                    if target != "bytesio":
+                    if target not in ("bytesio",) and not target.startswith("reused"):
                         with open(path, "rb") as f:
                             raw = f.read()
-                    if load_from == "path":
+                    if load_from == "same-object":
+                        pass
+                    elif load_from == "path":
                         back = joblib.load(path)
                     elif load_from == "file":
                         with open(path, "rb") as f:
@@ -171,6 +217,8 @@ def run_case(case, ctx):
             if expect_method is not None and got_method != expect_method:
                 ctx.violation("wrong-compressor-used", f"compress={compress!r} target={target}{ext}: file content is {got_method}, expected {expect_method}", desc)
             # the same bytes under every other name load identically
+            if target == "reused-file" and os.path.exists(path):
+                os.unlink(path)
             if target in ("path", "Path", "file"):
                 for e2 in EXTS:
                     if e2 == ext:
